@@ -632,9 +632,41 @@ func lastFunc(key string) string {
 	return key
 }
 
+// nativeAtCalls raises the caller's call-site assertions at a call the engine models natively (no contract
+// to bind parameter names from: the names are those of the callee's declared signature).
+func (ex *Exec) nativeAtCalls(c *callCtx, key string) {
+	if ex.collect || c.site == nil {
+		return
+	}
+	st := c.st
+	cf := ex.eng.contractFor(st.top().fn)
+	if cf == nil {
+		return
+	}
+	for _, ca := range cf.AtCalls {
+		if !callMatches(ca.Callee, key) {
+			continue
+		}
+		fr := st.top()
+		env := ex.envFor(st, fr, nil)
+		ps := c.sig.Params()
+		off := len(c.args) - ps.Len()
+		for i := 0; i < ps.Len(); i++ {
+			if n := ps.At(i).Name(); n != "" && off+i >= 0 && off+i < len(c.args) {
+				env.vars["arg_"+n] = c.args[off+i]
+			}
+		}
+		ex.bindOwnParams(env, fr)
+		g := ex.evalWith(env, ca.C)
+		ex.oblige(st, "assert@call", fmt.Sprintf("%s.%s", short(lastFunc(key)), ca.C.Label), ca.C.Tags, g, ca.C.Src, ex.eng.pos(c.site.Pos()))
+		st.assume(g)
+	}
+}
+
 func callMatches(pattern, key string) bool {
 	k := short(key)
-	return k == pattern || strings.HasSuffix(k, "."+pattern) || strings.HasSuffix(k, ")."+pattern) || lastFunc(key) == pattern
+	return k == pattern || strings.HasSuffix(k, "."+pattern) || strings.HasSuffix(k, ")."+pattern) || lastFunc(key) == pattern ||
+		(strings.Contains(pattern, ".") && strings.HasSuffix(k, "/"+pattern)) // pkgname.Func of an imported package
 }
 
 func (ex *Exec) bindOwnParams(env *Env, fr *Frame) {
